@@ -121,6 +121,10 @@ class RecSem(asyncio.BoundedSemaphore):
 
 def reset_bucket(T, now: float) -> dict:
     wf = T.PortTransport.write_frame
+    for cand in [wf] + [v for v in vars(T.PortTransport).values() if callable(v) and getattr(v, "__closure__", None)]:
+        if "BUCKET_CAPACITY" in getattr(cand, "__code__", wf.__code__).co_freevars:
+            wf = cand       # (the duty-cycle wrapper, wherever in the write path it has been put)
+            break
     cells = dict(zip(wf.__code__.co_freevars, wf.__closure__ or ()))
     cells["bits_in_bucket"].cell_contents = cells["BUCKET_CAPACITY"].cell_contents
     cells["last_time_bit_added"].cell_contents = now
